@@ -1,0 +1,16 @@
+//go:build verif
+
+package state
+
+import (
+	"github.com/oasisprotocol/oasis-core/go/common/quantity"
+	abciAPI "github.com/oasisprotocol/oasis-core/go/consensus/cometbft/api"
+)
+
+// VerifBlockFeeAccumulator returns a copy of the balance of the per-block fee accumulator kept
+// in the given block context (the package-private feeAccumulatorKey entry AuthenticateAndPayFees
+// moves fees into). Verification hook (property C08); read-only apart from creating the default
+// (zero) accumulator entry exactly as BlockFees does.
+func VerifBlockFeeAccumulator(bc *abciAPI.BlockContext) quantity.Quantity {
+	return *bc.Get(feeAccumulatorKey{}).(*feeAccumulator).balance.Clone()
+}
